@@ -260,6 +260,7 @@ func (gq *Schema) IsPossibleType(abstractType Abstract, possibleType *Object) bo
 	}
 	// An abstract type that is not part of this schema: answer without caching.
 	for _, ttype := range gq.PossibleTypes(abstractType) {
+		verifStep(9)
 		if ttype.Name() == possibleType.Name() {
 			return true
 		}
